@@ -236,7 +236,9 @@ impl C02 {
             o.s("what", extra).done()
         };
         let empty = m == 0 || n == 0;
+        let left_before = bio::verif::snapshot().get("banded.tb_left_band").copied().unwrap_or(0);
         let r = guard(|| invoke(al, c));
+        let left_band = bio::verif::snapshot().get("banded.tb_left_band").copied().unwrap_or(0) > left_before;
         ctx.eval(1);
         ctx.count(&format!("calls:{}", en), 1);
         let a = match r {
@@ -317,6 +319,22 @@ impl C02 {
                             {
                                 sig = "banded:wrapper:gap-run-split-by-filtered-clip".into();
                             }
+                        }
+                    }
+                    // F15: the traceback ended outside the band and its completion chose a gap run where the DP had
+                    // accounted for the (more expensive) prefix clip: the published path is worth more than the score
+                    if c.entry <= 6 && left_band && s > a.score as i64 {
+                        let ops = &a.operations;
+                        let lead_del = ops.iter().take_while(|o| **o == Del).count();
+                        let rest: Vec<&AlignmentOperation> = ops.iter().skip(lead_del).skip_while(|o| matches!(o, Xclip(0) | Yclip(0))).collect();
+                        let lead_ins = rest.iter().take_while(|o| ***o == Ins).count();
+                        let gap = |k: usize| spec.open as i64 + spec.ext as i64 * k as i64;
+                        let dy = if lead_del > 0 && a.ystart == 0 && clips[2] != MIN_SCORE { gap(lead_del) - clips[2] as i64 } else { 0 };
+                        let dx = if lead_ins > 0 && a.xstart == 0 && clips[0] != MIN_SCORE { gap(lead_ins) - clips[0] as i64 } else { 0 };
+                        let diff = s - a.score as i64;
+                        let sound = opt.map_or(true, |o| s <= o);
+                        if sound && ((dy > 0 && diff == dy) || (dx > 0 && diff == dx) || (dx > 0 && dy > 0 && diff == dx + dy)) {
+                            sig = "banded:custom:out-of-band-completion-cheaper-than-dp-accounting".into();
                         }
                     }
                     ctx.violation(&sig, desc(&format!("recomputed {} reported {} :: {:?}", s, a.score, a)));
@@ -628,6 +646,21 @@ impl C02 {
                 }
                 let c = self.make_call(rng, &spec, x, y, 8, 3, 0);
                 self.check_call(ctx, &mut al, &spec, &c, 0, true);
+            }
+            40 => {
+                // F15 witness: traceback ends outside the band; completion picks Del x8 where the DP paid the y prefix clip
+                let spec = Spec {
+                    mf: Mf { kind: 1, ms: 2, mm: -3, tbl: [-4, -4, -5, -2, -2, -2, 2, 1, -1, 0, -1, -5, 1, -2, 1, 0] },
+                    open: -2,
+                    ext: 0,
+                    clips: [-3, MIN_SCORE, -3, MIN_SCORE],
+                    sigma: 2,
+                };
+                let mut al = Aligner::with_scoring(spec.scoring(), 4, 4);
+                for entry in [2usize, 0, 1] {
+                    let c = self.make_call(rng, &spec, b"AABAABBABBA".to_vec(), b"ABABAABB".to_vec(), 4, 4, entry);
+                    self.check_call(ctx, &mut al, &spec, &c, 0, true);
+                }
             }
             _ => {
                 // directed mechanisms: band detached from origin / corner, traceback leaving the band
